@@ -165,7 +165,11 @@ class Gen:
 
     def lim(self):
         k = self.rng.below(4)
-        return ["f" + self.f32(), "d" + self.f64(), "s%d" % self.i64(), "i%d" % self.i64()][k] if k < 2 else ("s%d" % self.i64() if k == 2 else "i%d" % self.i64())
+        if k == 0:
+            return "f" + self.f32()
+        if k == 1:
+            return "d" + self.f64()
+        return ("s%d" if k == 2 else "i%d") % self.i64()
 
     def ext_name(self):
         r = self.rng
@@ -430,19 +434,38 @@ def parse_back(back):
     return pcs, imgs
 
 
+PLAIN_FLOAT = set(b"0123456789.-infNa")
+
+
 class Fdisplay:
-    """oracle table: Rust's Display of float bit patterns, asked from the harness once per pattern"""
+    """oracle table: Rust's Display of float bit patterns, asked from the harness once per pattern.
+    The two assumptions the theorems make about the oracle are validated on every pattern:
+    the text is plain (digits . - inf NaN: hypothesis f64_ok/f32_ok of gen_is_render) and Rust's parse
+    gives the bit pattern back, NaN up to payload (hypothesis float_oracle_ok of extract_tree_of)."""
     def __init__(self, impl):
-        self.impl, self.t64, self.t32 = impl, {}, {}
+        self.impl, self.t64, self.t32, self.bad = impl, {}, {}, []
 
     def ensure(self, s64, s32):
-        for kind, want, tab in (("FDISPLAY", s64, self.t64), ("FDISPLAY32", s32, self.t32)):
+        for kind, pkind, want, tab, nan, width in (("FDISPLAY", "FPARSE", s64, self.t64, "7ff8000000000000", 64),
+                                                   ("FDISPLAY32", "FPARSE32", s32, self.t32, "7fc00000", 32)):
             miss = sorted(x for x in want if x not in tab)
             lines = [kind + " " + " ".join(miss[i:i + 200]) for i in range(0, len(miss), 200)]
             outs = core.run_cases(self.impl, lines) if lines else []
+            texts = []
             for i, o in enumerate(outs):
                 for b, t in zip(miss[i * 200:(i + 1) * 200], o.split(" ")):
                     tab[b] = t[1:]
+                    texts.append((b, t))
+            plines = [pkind + " " + " ".join(t for _, t in texts[i:i + 200]) for i in range(0, len(texts), 200)]
+            pouts = core.run_cases(self.impl, plines) if plines else []
+            for i, o in enumerate(pouts):
+                for (b, t), back in zip(texts[i * 200:(i + 1) * 200], o.split(" ")):
+                    v = int(b, 16)
+                    is_nan = (v >> 52) & 0x7ff == 0x7ff and v & ((1 << 52) - 1) if width == 64 else (v >> 23) & 0xff == 0xff and v & ((1 << 23) - 1)
+                    want_back = nan if is_nan else b
+                    raw = bytes.fromhex(t[1:])
+                    if back != want_back or not raw or not set(raw) <= PLAIN_FLOAT:
+                        self.bad.append((kind, b, raw.decode("latin-1"), back))
 
 
 def crate_version():
@@ -510,10 +533,10 @@ def evaluate(impl, fd, version, progs):
     mouts = core.run_cases(core.DRIVER, mlines) if mlines else []
     for i, mo in zip(midx, mouts):
         parts = mo.split(" | ")
-        if len(parts) != 3:
+        if len(parts) != 4:
             res[i]["model_crash"] = mo[:300]
             continue
-        res[i].update(m_xml=parts[0], m_meta=parts[1], m_tree=parts[2])
+        res[i].update(m_xml=parts[0], m_meta=parts[1], m_tree=parts[2], m_hyp=parts[3])
     return res
 
 
@@ -553,7 +576,8 @@ def judge(d):
     if direct is not None:
         return v            # the property itself fails on this input: that is the finding
     if d["xml"] != d["m_xml"]:
-        a, b = bytes.fromhex(d["xml"]), bytes.fromhex(d["m_xml"]) if not d["m_xml"].startswith(("e", "P")) or len(d["m_xml"]) > 20 else d["m_xml"].encode()
+        a = bytes.fromhex(d["xml"])
+        b = d["m_xml"].encode() if d["m_xml"][:1] in ("e", "P") else bytes.fromhex(d["m_xml"])
         k = next((j for j in range(min(len(a), len(b))) if a[j] != b[j]), min(len(a), len(b)))
         v.append(("correspondence-c04", "XML of the implementation and gen_root of the model differ at byte %d: impl ...%r model ...%r"
                   % (k, a[max(0, k - 40):k + 40], b[max(0, k - 40):k + 40]), False))
@@ -586,6 +610,15 @@ def probes():
               "PC %s 4 %s u.%s.%s~I/0/7" % (S("p"), " ".join(base_pc), hexs("ext"), hexs("0abc")), "PE", "FIN")))
     P.append(("extension-record-with-standard-name", prog("G " + S("g"), "X %s %s" % (S("ext"), S("http://e")),
               "PC %s 4 %s u.%s.%s~I/0/7" % (S("p"), " ".join(base_pc), hexs("ext"), hexs("intensity")), "PE", "FIN")))
+    P.append(("extension-record-named-images2D", prog("G " + S("g"), "X %s %s" % (S("ext"), S("http://e")),
+              "PC %s 4 %s u.%s.%s~I/0/7" % (S("p"), " ".join(base_pc), hexs("ext"), hexs("images2D")), "PE",
+              "IMG " + S("i"), "IVR p =00 - 1 1", "IE", "FIN")))
+    P.append(("extension-record-named-data3D-and-prototype", prog("G " + S("g"), "X %s %s" % (S("ext"), S("http://e")),
+              "PC %s 5 %s u.%s.%s~I/0/7 u.%s.%s~I/0/7" % (S("p"), " ".join(base_pc), hexs("ext"), hexs("data3D"), hexs("ext"), hexs("prototype")), "PE",
+              "PC %s 3 %s" % (S("q"), " ".join(base_pc)), "PE", "FIN")))
+    P.append(("extension-record-named-points-guid-name", prog("G " + S("g"), "X %s %s" % (S("ext"), S("http://e")),
+              "PC %s 6 %s u.%s.%s~I/0/7 u.%s.%s~I/0/7 u.%s.%s~I/0/7" % (S("p"), " ".join(base_pc), hexs("ext"), hexs("points"), hexs("ext"), hexs("guid"), hexs("ext"), hexs("e57Root")),
+              "PN " + S("nm"), "PE", "FIN")))
     P.append(("two-extensions-same-url", prog("G " + S("g"), "X %s %s" % (S("e1"), S("http://e")), "X %s %s" % (S("e2"), S("http://e")),
               "PC %s 4 %s u.%s.%s~I/0/7" % (S("p"), " ".join(base_pc), hexs("e2"), hexs("foo")), "PE", "FIN")))
     P.append(("extension-url-is-e57-namespace", prog("G " + S("g"), "X %s %s" % (S("ext"), S("http://www.astm.org/COMMIT/E57/2010-e57-v1.0")),
@@ -679,7 +712,8 @@ def run(rep, tier, rng, replay=None):
         "roxmltree 0.20 as the reader's XML parser (tree_of is compared with its tree on every case)"]
     if not ok:
         return
-    impl = core.ensure_harness("debug")
+    # XG_HARNESS: a harness built elsewhere (sensitivity experiments on a scratch copy of the crate)
+    impl = os.environ.get("XG_HARNESS") or core.ensure_harness("debug")
     fd = Fdisplay(impl)
     version = crate_version()
     g = Gen(rng)
@@ -688,18 +722,29 @@ def run(rep, tier, rng, replay=None):
         progs = []
     else:
         named = probes()
-        n = 500 if tier == "quick" else 50000
+        n = 4000 if tier == "quick" else 50000
         progs = [g.program() for _ in range(n)]
-        # presence sweeps: one point cloud / one image per program with everything set, and with nothing set
-        progs += [g.program(size=1) for _ in range(40 if tier == "quick" else 2000)]
+        # single-item programs: one point cloud / one image / one blob
+        progs += [g.program(size=1) for _ in range(300 if tier == "quick" else 3000)]
     n_direct = n_corr = 0
-    stats = dict(programs=0, pointclouds=0, images=0, extensions=0, xml_bytes=0, commands=0, unreadable=0)
+    stats = dict(programs=0, pointclouds=0, images=0, extensions=0, xml_bytes=0, commands=0, rejected_calls=0)
+
+    seen_classes = set()
 
     def report(d, name=None):
         nonlocal n_direct, n_corr
         vs = judge(d)
         for cls, desc, direct in vs:
             cmds = d["prog"]
+            key = cls if name is None else "c04-probe-" + name
+            if key in seen_classes:
+                # one replay per class (Report keeps the first); count the others
+                if direct:
+                    n_direct += 1
+                else:
+                    n_corr += 1
+                continue
+            seen_classes.add(key)
             if direct or cls.startswith("correspondence"):
                 def fails(c, cls=cls):
                     r = evaluate(impl, fd, version, [c])[0]
@@ -735,6 +780,14 @@ def run(rep, tier, rng, replay=None):
             stats["pointclouds"] += kws.count("PC"); stats["images"] += kws.count("IMG"); stats["extensions"] += kws.count("X")
             if d.get("ok") and d["xml"] not in ("-",) and not d["xml"].startswith(("err", "P")):
                 stats["xml_bytes"] += len(d["xml"]) // 2
+            if d.get("ok"):
+                stats["rejected_calls"] += sum(1 for r in d["results"] if r != "o")
+            hyp = d.get("m_hyp")
+            if hyp:
+                stats["hyp_" + hyp] = stats.get("hyp_" + hyp, 0) + 1
+                # inside the domain of the theorems the implementation must round-trip: a direct failure there
+                # would contradict gen_is_render + parse_render + extract_tree_of (or the tie)
+                
             rep.distinct(gen.fnv_hex(" ".join(kws + [t for c in d["prog"] for t in c[1:] if t == "-"]).encode()))
             report(d)
     if tier == "thorough" and progs:
@@ -748,6 +801,18 @@ def run(rep, tier, rng, replay=None):
                 rep.violation("c04-debug-release-differ", "debug and release builds give different results for a metadata program",
                               dict(kind="metadata-program", commands=[" ".join(c) for c in p]))
                 break
+    if fd.bad:
+        k, b, t, back = fd.bad[0]
+        rep.violation("float-oracle-assumption", "Rust's Display/parse of the float %s (%s): text %r parses back to %s - the oracle hypotheses of the theorems "
+                      "(plain text, parse inverts Display) do not hold" % (b, k, t, back), dict(kind="float", bits=b, text=t, parsed=back), no_input=True)
+    # extraction cross-check: the digest of gen_root on the example value, proved by vm_compute inside Coq
+    # (Proofs/XgRender.v, Example xg_example_digest), must be what the extracted OCaml code computes
+    self_out = core.run_one(core.DRIVER, "XGSELF")
+    rep.count()
+    if self_out != "3141 2242033640 true true":
+        n_corr += 1
+        rep.violation("extraction-mismatch", "gen_root on the example value: extracted code gives %s, Coq proves 3141 2242033640 true true" % self_out,
+                      dict(kind="extraction", failing="OCaml extraction of Model/XmlGen.v vs vm_compute"), no_input=True)
     # integer printing: Rust's Display against the model's decimal conversion
     ints = sorted(set(I64_POOL + [rng.range(I64_MIN, I64_MAX) for _ in range(300)] + [10 ** k for k in range(19)] + [-(10 ** k) for k in range(19)]
                       + [(1 << 64) - 1, 1 << 63, (1 << 64) - 2, 10 ** 19] + [rng.below(1 << 64) for _ in range(100)]))
@@ -768,7 +833,7 @@ def run(rep, tier, rng, replay=None):
         used[c] = used.get(c, 0) + 1
     rep.cov.update(stats, probes=probe_summary, string_pool=len(STRING_POOL), strings_used=len(g.used_strings), string_classes_used=used,
                    f64_patterns_used=len(g.used_f64), f32_patterns_used=len(g.used_f32), item_kinds=g.kinds,
-                   float_display_table=len(fd.t64) + len(fd.t32), integers_compared=len(ints),
+                   float_display_table=len(fd.t64) + len(fd.t32), float_oracle_assumptions_validated=len(fd.t64) + len(fd.t32) - len(fd.bad), integers_compared=len(ints),
                    direct_failures=n_direct, correspondence_failures=n_corr,
                    traces_validated_against_impl=stats["programs"] + len(named))
     if progs:
